@@ -132,8 +132,11 @@ class MessageDispatcher(object):
         for name in dir(resource):
             attr = getattr(resource, name)
             if inspect.isroutine(attr) and hasattr(attr, "_event"):
-                if attr._event in self.registered_events:
-                    self.unregister_function(attr._event)
+                event_type = attr._event
+                if isinstance(event_type, type):
+                    event_type = event_type.__name__
+                if event_type in self.registered_events:
+                    self.unregister_function(event_type)
 
     def register_function(self, event_type, fn):
         """ register an event handler for a given type
@@ -158,8 +161,8 @@ class MessageDispatcher(object):
         """
         if isinstance(event_type, type):
             event_type = event_type.__name__
-        if event_type in self.registered_events:
-            raise Exception("duplicate function registered for %s" % event_type)
+        if event_type not in self.registered_events:
+            raise Exception("no function registered for %s" % event_type)
         del self.registered_events[event_type]
 
     def dispatch(self):
